@@ -1418,6 +1418,17 @@ def rule_diagnosed_failures(prog, fixture=False):
                 cond = h.nodes.get(b["cond"])
                 if any(x.get("k") == "DeclRefExpr" and notpl(x.get("q") or "") == "std::cout" for x in walk(cond)):
                     test_blocks.append(bid)
+            if not test_blocks:
+                # the test may be made on a bool that holds the stream state (`const bool written = !cout.flush().fail()`):
+                # branch facts are expanded through single-definition bool locals
+                gh = Guards(h)
+                for (p_, s_), ks in gh.edge_facts.items():
+                    for k_ in ks:
+                        f_ = gh.rep.get(k_)
+                        if f_ is not None and f_[0] == "T" and any(
+                                x.get("k") == "DeclRefExpr" and notpl(x.get("q") or "") == "std::cout" for x in walk(f_[1])):
+                            if p_ not in test_blocks:
+                                test_blocks.append(p_)
             key = "%s::%s::stdout-failure" % (h.relfile(), h.qn)
             if not test_blocks:
                 from .c11 import cout_state_as_value
